@@ -183,14 +183,11 @@ impl Hook {
 }
 
 impl SearchHook for Hook {
-    fn poll(&mut self, negamax_nodes: u64) -> Option<bool> {
+    fn poll(&mut self, negamax_nodes: u64, original: bool) -> Option<bool> {
         self.announce();
-        let (interval, min_nodes, gates_empty) = {
+        let (scaled, gates_empty) = {
             let p = self.shared.plan.lock().unwrap();
-            match p.poll {
-                None => (100_000, 0, p.gates.is_empty()),
-                Some((i, m)) => (i, m, p.gates.is_empty()),
-            }
+            (p.poll, p.gates.is_empty())
         };
         {
             let mut c = self.shared.counters.lock().unwrap();
@@ -198,7 +195,12 @@ impl SearchHook for Hook {
                 c.max_negamax_nodes = negamax_nodes;
             }
         }
-        let polls_now = negamax_nodes > 0 && negamax_nodes % interval == 0 && negamax_nodes >= min_nodes;
+        // unscaled plans keep the product's own poll rule in force (its decision is `original`);
+        // scaled plans replace it by "every `interval` nodes from `min_nodes` on"
+        let polls_now = match scaled {
+            None => original,
+            Some((interval, min_nodes)) => negamax_nodes > 0 && negamax_nodes % interval == 0 && negamax_nodes >= min_nodes,
+        };
         if !polls_now {
             return Some(false);
         }
